@@ -148,12 +148,17 @@ class C08(Sides, C08Base):
     # is_canceled, RP.Relay.Model)
     side_specs = [Spec('relay', 'relay', ['cancel_in_backlog', 'cancel_on_queue', 'bystanders_unaffected',
                                           'no_forward_after_final', 'exactly_one_place', 'linearizable'],
-                       only=_relay_cancel)]
-    clauses = C08Base.clauses + side_specs[0].clause_names()
+                       only=_relay_cancel),
+                  # where the request starts: TaskManager.cancel_tasks / Task.cancel build the message whose `uids`
+                  # list the agent's handlers iterate (harness/cancelreq.py, RP.CancelReq.Model)
+                  Spec('client', 'cancelreq', ['request_names_exactly_the_named_tasks',
+                                               'component_registers_exactly_the_named_tasks'])]
+    clauses = C08Base.clauses + side_specs[0].clause_names() + side_specs[1].clause_names()
     extra_targets = C08Base.extra_targets + ['Relay/Oracle.vo', 'Relay/Proofs.vo', 'Relay/History.vo', 'Relay/Frame.vo',
                                              'Relay/OracleProofs.vo']
     model_targets = C08Base.model_targets + ['Relay/Oracle.vo']
-    corr_name = C08Base.corr_name + '; ' + Relay.corr_name
+    corr_name = (C08Base.corr_name + '; ' + Relay.corr_name + '; CancelReq.Model(request_uids/register) vs '
+                 'TaskManager.cancel_tasks / Task.cancel / BaseComponent._control_cb')
     rule = C08Base.rule + '; ' + Relay.rule + ' (the sequences and thread pairs in which a cancel request occurs)'
     trusted = [t.replace('raptor forwarding, ', '') for t in C08Base.trusted] + Relay.trusted
 
